@@ -69,15 +69,6 @@ class OptimizationGroup:
         self._matrix_provider: MatrixProvider = matrix_provider
         self._estimation_provider: EstimationProvider = estimation_provider
 
-        if self._add_svd:
-            for dataset in self._data.values():
-                self.add_svd_data(
-                    "data",
-                    dataset,
-                    dataset.data.dims[0],
-                    dataset.data.dims[1],
-                )
-
     def calculate(self, parameters: Parameters):
         """Calculate the optimization group data.
 
@@ -164,6 +155,12 @@ class OptimizationGroup:
             result_dataset["clp"] = clps[label]
 
             if self._add_svd:
+                self.add_svd_data(
+                    "data",
+                    result_dataset,
+                    result_dataset.data.dims[0],
+                    result_dataset.data.dims[1],
+                )
                 self.add_svd_data("residual", result_dataset, model_dimension, global_dimension)
                 if "weighted_residual" in result_dataset:
                     self.add_svd_data(
